@@ -754,9 +754,11 @@ func (p *Posix) createObjVersion(bucket, key string, size int64, acc auth.Accoun
 		}
 	}
 
+	verifhook.At("posix.objversion.copied")
 	if err := f.link(); err != nil {
 		return versionPath, err
 	}
+	verifhook.At("posix.objversion.stored")
 
 	return versionPath, nil
 }
@@ -1809,6 +1811,7 @@ func (p *Posix) CompleteMultipartUpload(ctx context.Context, input *s3.CompleteM
 	}
 
 	// cleanup tmp dirs
+	verifhook.At("posix.cmu.beforecleanup")
 	os.RemoveAll(filepath.Join(bucket, objdir, uploadID))
 	// use Remove for objdir in case there are still other uploads
 	// for same object name outstanding, this will fail if there are
@@ -2955,6 +2958,7 @@ func (p *Posix) PutObject(ctx context.Context, po s3response.PutObjectInput) (s3
 		// published zero padded
 		return s3response.PutObjectOutput{}, s3err.GetAPIError(s3err.ErrIncompleteBody)
 	}
+	verifhook.At("posix.putobject.bodywritten")
 
 	// if the versioninng is enabled create the file object version of the
 	// object that is about to be replaced; only now that the new body has
@@ -3132,6 +3136,7 @@ func (p *Posix) PutObject(ctx context.Context, po s3response.PutObjectInput) (s3
 			return s3response.PutObjectOutput{}, err
 		}
 	}
+	verifhook.At("posix.putobject.done")
 
 	return s3response.PutObjectOutput{
 		ETag:              etag,
@@ -3394,7 +3399,9 @@ func (p *Posix) DeleteObject(ctx context.Context, input *s3.DeleteObjectInput) (
 		return &s3.DeleteObjectOutput{}, nil
 	}
 
+	verifhook.At("posix.deleteobject.beforeremove")
 	err = os.Remove(objpath)
+	verifhook.At("posix.deleteobject.removed")
 	if errors.Is(err, fs.ErrNotExist) {
 		return nil, s3err.GetAPIError(s3err.ErrNoSuchKey)
 	}
@@ -3597,6 +3604,8 @@ func (p *Posix) GetObject(_ context.Context, input *s3.GetObjectInput) (*s3.GetO
 		return nil, fmt.Errorf("stat object: %w", err)
 	}
 
+	verifhook.At("posix.getobject.statted")
+
 	if strings.HasSuffix(object, "/") && !fi.IsDir() {
 		return nil, s3err.GetAPIError(s3err.ErrNoSuchKey)
 	}
@@ -3711,6 +3720,7 @@ func (p *Posix) GetObject(_ context.Context, input *s3.GetObjectInput) (*s3.GetO
 		tagCount = &tgCount
 	}
 
+	verifhook.At("posix.getobject.attrsread")
 	f, err := os.Open(objPath)
 	if errors.Is(err, fs.ErrNotExist) {
 		return nil, s3err.GetAPIError(s3err.ErrNoSuchKey)
@@ -3718,6 +3728,7 @@ func (p *Posix) GetObject(_ context.Context, input *s3.GetObjectInput) (*s3.GetO
 	if err != nil {
 		return nil, fmt.Errorf("open object: %w", err)
 	}
+	verifhook.At("posix.getobject.opened")
 
 	var checksums s3response.Checksum
 	var cType types.ChecksumType
